@@ -162,7 +162,7 @@ def patterns(tier, seed):
     # regression witness of F5 first: three and more components
     add("G", ["P", "P", "P"])
     add("G", ["P", "L", "T", "U", "F", "X"])
-    full = 6 if tier == "thorough" else 4
+    full = 6 if tier == "thorough" else 5
     for n in range(1, full + 1):
         for ks in itertools.product(BASE, repeat=n):
             add("G", ks)
